@@ -19,7 +19,9 @@ from props.engine_common import plain
 
 TXN = {'description': 'APLPAY Alfa Store #123', 'amount': 50.25, 'date': datetime.date(2025, 12, 31),
        'field': {'kind': 'ACH', 'memo': 'm'}, 'source': 'Card', 'location': 'WA'}
-DS = {'orders': [{'item': 'Widget', 'amount': 30.0, 'n': 1}, {'item': 'Gadget', 'amount': 50.25, 'n': 2}]}
+DS = {'orders': [{'item': 'Widget', 'amount': 30.0, 'n': 1}, {'item': 'Gadget', 'amount': 50.25, 'n': 2}],
+      # a supplemental file with a short line: its row has fewer keys than the first one (load_supplemental_sources builds them so)
+      'ledger': [{'item': 'Widget', 'status': 'ok', 'n': 1}, {'item': 'Partial'}, {'item': 'Late', 'status': '', 'n': 3}]}
 VARS = {'big': True, 'lim': 40}
 
 RECV = {
@@ -98,6 +100,10 @@ PAYLOADS = [
     '(acc := [r for r in orders]) and sum([[q for q in orders] for o in orders], acc) and len(acc) == 2',
     'sum([[q for q in orders] for o in orders], [r for r in orders])', 'sum([r.n for r in orders], 0)',
     'max(orders, orders)', 'min(orders, [r for r in orders])', 'orders + orders', '[r for r in orders][0]', 'next((r for r in orders), orders)',
+    # queries over rows of different width: reading (or merely walking past) a short row leaves it as short as it was
+    '[r.item for r in ledger]', 'sum(1 for r in ledger)', 'any(r.item == "zz" for r in ledger)', '[r.status for r in ledger]',
+    'next((r.item for r in ledger if r.item == "Late"), "none")', 'len([r for r in ledger if r.item != "x"]) == 3',
+    '[[q.item for q in ledger] for r in ledger]', 'all(r.item != "" for r in ledger) and len(ledger) == 3',
     'amount > 50 and amount > "50"', 'description == "APLPAY ALFA STORE #123"', 'month == "12"', '(x := "2025-01-01") and date > x',
 ]
 
@@ -336,7 +342,7 @@ def concretise_state(st, dunder, other, rnd, quick):
         view = st.get('ev') == 'view'
         own_fns = VIEW_FNS if view else WHITELISTED_FNS
         own_prims = VIEW_PRIMITIVES if view else ['description', 'amount', 'date', 'month', 'year', 'day', 'weekday', 'source', 'true', 'false']
-        legit = set(own_fns) | set(own_prims) | {'big', 'lim', 'orders', 'location', 'field', 'txn'}
+        legit = set(own_fns) | set(own_prims) | {'big', 'lim', 'orders', 'ledger', 'location', 'field', 'txn'}
         names = {'primitive': own_prims,
                  'variable': ['big', 'lim', 'BIG'], 'data_source': ['orders'], 'whitelisted_fn': own_fns,
                  'python_builtin': [n for n in PY_BUILTINS if n != 'abs_' and n not in legit], 'dunder_name': DUNDER_NAMES,
